@@ -219,11 +219,42 @@ def compile_pat(src: str, mode: str = "auto") -> ast.AST:
     return node
 
 
-def m(src: str, node: ast.AST, env: Optional[Env] = None) -> Optional[Env]:
-    """match a pattern (source text) against one node."""
+_FN_DEFS: Dict[int, Tuple[ast.AST, Dict[str, ast.AST]]] = {}
+
+
+def fn_defs(fn: ast.AST) -> Dict[str, ast.AST]:
+    """single-assignment locals of a function node -> their defining expression (parameters excluded)."""
+    c = _FN_DEFS.get(id(fn))
+    if c is not None and c[0] is fn:
+        return c[1]
+    stores: Dict[str, int] = {}
+    vals: Dict[str, ast.AST] = {}
+    a = fn.args
+    pn = {x.arg for x in a.posonlyargs + a.args + a.kwonlyargs} | ({a.vararg.arg} if a.vararg else set()) | ({a.kwarg.arg} if a.kwarg else set())
+    for x in ast.walk(fn):
+        if isinstance(x, ast.Name) and isinstance(x.ctx, (ast.Store, ast.Del)):
+            stores[x.id] = stores.get(x.id, 0) + 1
+        elif isinstance(x, ast.Assign) and len(x.targets) == 1 and isinstance(x.targets[0], ast.Name):
+            vals[x.targets[0].id] = x.value
+        elif isinstance(x, ast.AugAssign) and isinstance(x.target, ast.Name):
+            stores[x.target.id] = stores.get(x.target.id, 0) + 1
+    d = {k: v for k, v in vals.items() if stores.get(k) == 1 and k not in pn}
+    _FN_DEFS[id(fn)] = (fn, d)
+    return d
+
+
+def m(src: str, node: ast.AST, env: Optional[Env] = None, fn: Optional[ast.AST] = None) -> Optional[Env]:
+    """match a pattern (source text) against one node; with `fn` (the enclosing function node) temporaries are transparent."""
     if node is None:
         return None
-    return match(compile_pat(src), node, dict(env or {}))
+    global _DEFS
+    saved = _DEFS
+    if fn is not None:
+        _DEFS = fn_defs(fn)
+    try:
+        return match(compile_pat(src), node, dict(env or {}))
+    finally:
+        _DEFS = saved
 
 
 def find(root, src: str, env: Optional[Env] = None, nodes: Optional[Iterable[ast.AST]] = None) -> List[Tuple[ast.AST, Env]]:
@@ -231,12 +262,19 @@ def find(root, src: str, env: Optional[Env] = None, nodes: Optional[Iterable[ast
     p = compile_pat(src)
     out = []
     it = nodes if nodes is not None else ast.walk(root)
-    for n in it:
-        if isinstance(p, ast.stmt) != isinstance(n, ast.stmt) and not isinstance(p, ast.Module):
-            continue
-        e = match(p, n, dict(env or {}))
-        if e is not None:
-            out.append((n, e))
+    global _DEFS
+    saved = _DEFS
+    if isinstance(root, (ast.FunctionDef, ast.AsyncFunctionDef)):
+        _DEFS = fn_defs(root)       # temporaries of the function are transparent
+    try:
+        for n in it:
+            if isinstance(p, ast.stmt) != isinstance(n, ast.stmt) and not isinstance(p, ast.Module):
+                continue
+            e = match(p, n, dict(env or {}))
+            if e is not None:
+                out.append((n, e))
+    finally:
+        _DEFS = saved
     return out
 
 
